@@ -14,26 +14,34 @@ def pairOK (w : World) (e1 e2 : Int) : Bool :=
 def allAgents (w : World) : List Aid := List.range w.n
 def allCells (w : World) : List Nat := List.range (w.rows * w.cols)
 
+/-- shape of the tables -/
+def wShape (w : World) : Bool :=
+  (w.cells.length == w.rows * w.cols) && (w.st.length == w.cfg.length)
+
+/-- whoever is stored in cell `i` is a real, active agent whose position is that cell, once; and no
+two occupants have encodings that may not overlap -/
+def wCell (w : World) (i : Nat) : Bool :=
+  let c := w.cells.getD i []
+  decide c.Nodup &&
+  c.all (fun a => decide (a < w.n) && (w.stOf a).active && w.inGrid (w.stOf a).pos &&
+                  (w.idx (w.stOf a).pos == i)) &&
+  c.all (fun a => c.all (fun b => a == b || w.pairOK (w.encOf a) (w.encOf b)))
+
+/-- every active agent is stored in the cell of its position, which lies inside the grid; vitals -/
+def wAgent (w : World) (a : Aid) : Bool :=
+  let s := w.stOf a
+  (!s.active || (w.inGrid s.pos && decide (a ∈ w.cell s.pos))) &&
+  decide (0 ≤ s.health) && decide (s.health ≤ 1) && (s.active == decide (0 < s.health)) &&
+  decide (0 ≤ s.ammo) && (!(w.cfgOf a).hasAmmo || decide (s.ammo ≤ max 0 (w.cfgOf a).initAmmo)) &&
+  (!(w.cfgOf a).hasOrient || (decide (1 ≤ s.orient) && decide (s.orient ≤ 4)))
+
+/-- the grid's overlapping table is symmetric (it is closed by `Grid.overlapping`'s setter, C19) -/
+def wOverlapSym (w : World) : Bool :=
+  w.overlap.all (fun p => p.2.all (fun x => w.pairOK x p.1))
+
 /-- **C03 invariant** on a world (built-in components only) -/
 def WInv (w : World) : Bool :=
-  -- shape
-  (w.cells.length == w.rows * w.cols) && (w.st.length == w.cfg.length) &&
-  -- whoever is stored in a cell is a real, active agent whose position is that cell; once
-  w.allCells.all (fun i =>
-    let c := w.cells.getD i []
-    decide c.Nodup &&
-    c.all (fun a => decide (a < w.n) && (w.stOf a).active && w.inGrid (w.stOf a).pos &&
-                    (w.idx (w.stOf a).pos == i)) &&
-    -- no two occupants whose encodings may not overlap
-    c.all (fun a => c.all (fun b => a == b || w.pairOK (w.encOf a) (w.encOf b)))) &&
-  -- every active agent is stored in the cell of its position, which lies inside the grid
-  w.allAgents.all (fun a =>
-    let s := w.stOf a
-    (!s.active || (w.inGrid s.pos && decide (a ∈ w.cell s.pos))) &&
-    -- vitals
-    decide (0 ≤ s.health) && decide (s.health ≤ 1) && (s.active == decide (0 < s.health)) &&
-    decide (0 ≤ s.ammo) &&
-    (!(w.cfgOf a).hasOrient || (decide (1 ≤ s.orient) && decide (s.orient ≤ 4))))
+  w.wShape && w.allCells.all w.wCell && w.allAgents.all w.wAgent && w.wOverlapSym
 
 /-- everything about agent `b` and about cell `i` is the same in both worlds -/
 def sameAgent (w w' : World) (b : Aid) : Bool := w.stOf b == w'.stOf b
